@@ -63,3 +63,24 @@ package resource
 //@   ghost@call Merge#* : detMerged = detMerged + 1
 //@   assert@return#* : (attrs == "" && svcName == "") || detMerged == 1
 //@   assert@return#2 : $ret0 == res
+
+// ======================================================================== C19 detector chain (auto.go)
+// detect: every detector's answer is merged into the accumulated resource, b-over-a (Merge(res, r)), whatever it holds - also a
+// resource without attributes, which may still carry a schema URL; the only answer that may stay unmerged is one that came with
+// an error, and that error is then part of the result. Ghost detPending: 1 between a detector's answer and the Merge that consumes
+// it, 2 once the answer's error has been joined into the result (errors.Join #1 is the join of the detector's error).
+//@ ghost var detPending int
+//@ func detect(ctx context.Context, res *Resource, detectors []Detector) (err error)
+//@   prop C19
+//@   overflow assumed
+//@   unchecked frame,no-panic detectors are third-party code; errors.Join/Is and fmt.Errorf are outside the contracts
+//@   requires res != nil
+//@   ghost@entry : detPending = 0
+//@   assert@call Detect#* : detPending == 0 || detPending == 2
+//@   ghost@call Detect#* : detPending = 1
+//@   assert@call Join#1 : detPending == 1 && $arg0[1] == e && e != nil
+//@   ghost@call Join#1 : detPending = 2
+//@   assert@call Merge#* : $arg0 == res && $arg1 == r && (detPending == 1 || detPending == 2)
+//@   ghost@call Merge#* : detPending = 0
+//@   loop#1 invariant detPending == 0 || detPending == 2
+//@   assert@return#* : detPending == 0 || detPending == 2
